@@ -890,14 +890,14 @@ func c08judge(r *core.Recorder, c c08case, q rig.Req, s c08script, resp *rig.Res
 }
 
 func c08Plan(tier string, seed int64) []core.Batch {
-	n, late := 220, 6
+	n, late, early := 220, 6, 3
 	if tier == "thorough" {
-		n, late = 15000, 60
+		n, late, early = 15000, 60, 20
 	}
 	var bs []core.Batch
 	for _, tr := range []string{"plain", "tunnel"} {
 		for _, be := range []string{"memory", "file"} {
-			bs = append(bs, core.Batch{Name: tr + "-" + be, TimeoutS: 1200, Args: map[string]any{"transport": tr, "backend": be, "n": n, "late_rounds": late}})
+			bs = append(bs, core.Batch{Name: tr + "-" + be, TimeoutS: 1200, Args: map[string]any{"transport": tr, "backend": be, "n": n, "late_rounds": late, "early_reps": early}})
 		}
 	}
 	// The same part once more with every write system call of the child held for 3 ms after it has completed
